@@ -287,6 +287,28 @@ func (vt *v2T) scenC06() {
 			inter[k], inter[v] = v, k
 		}
 	}
+	// the recorded instance of the open finding C06-split-on-shared-line is always part of the run: BSD-0-Clause is
+	// reported next to ISC only because ISC's disclaimer is one line (retain loop, c.StartLine == o.EndLine)
+	for _, d := range v2Corpus() {
+		if d.Key == "License/ISC/pristine.txt" {
+			x := string(d.Data)
+			y := strings.Replace(x, "INCLUDING ALL IMPLIED WARRANTIES", "INCLUDING ALL IMPLIED WARRAN-\n   TIES", 1)
+			if x != y {
+				L := strings.Count(x[:strings.Index(x, "INCLUDING ALL IMPLIED")], "\n") + 1
+				n := strings.Count(x, "\n") + 1
+				lmap := make([]int, n)
+				for i := range lmap {
+					lmap[i] = i + 1
+					if i+1 > L {
+						lmap[i] = i + 2
+					}
+				}
+				ra := vt.match(c, []byte(x), v2MatchOpts{})
+				rb := vt.match(c, []byte(y), v2MatchOpts{})
+				vt.pair(ra, rb, "hyphen-split", 0, lmap, true, nil, map[string]interface{}{"label": d.Key, "nolines": true, "split": L})
+			}
+		}
+	}
 	for xi, x := range xs {
 		ra := vt.match(c, x, v2MatchOpts{})
 		lines := v2Lines(x)
@@ -346,9 +368,16 @@ func (vt *v2T) scenC06() {
 				f := strings.Fields(lines[pick[0]])
 				w := f[pick[1]]
 				cut := 2 + vt.rng.Intn(len(w)-3)
+				l1 := strings.Join(f[:pick[1]], " ") + " " + w[:cut] + "-"
+				l2 := "   " + w[cut:] + " " + strings.Join(f[pick[1]+1:], " ")
+				// the halves are lines of their own: `Python ver-` / `sion Copyright (c) 2008 ...` makes the second one a
+				// notice by the per-line definition, which is a different text, not a split of the same one
+				if v2NoticeLine(strings.Fields(l1)) || v2NoticeLine(strings.Fields(l2)) {
+					goto nosplit
+				}
 				out := append([]string(nil), lines[:pick[0]]...)
-				out = append(out, strings.Join(f[:pick[1]], " ")+" "+w[:cut]+"-")
-				out = append(out, "   "+w[cut:]+" "+strings.Join(f[pick[1]+1:], " "))
+				out = append(out, l1)
+				out = append(out, l2)
 				out = append(out, lines[pick[0]+1:]...)
 				lmap := make([]int, len(lines))
 				for i := range lmap {
@@ -358,8 +387,9 @@ func (vt *v2T) scenC06() {
 					}
 				}
 				rb := vt.match(c, []byte(strings.Join(out, "\n")), v2MatchOpts{})
-				vt.pair(ra, rb, "hyphen-split", 0, lmap, true, nil, lab)
+				vt.pair(ra, rb, "hyphen-split", 0, lmap, true, nil, map[string]interface{}{"label": labels[xi], "nolines": true, "split": pick[0] + 1})
 			}
+		nosplit:
 		}
 		// (4) interchangeable spellings and (5) URL scheme
 		{
